@@ -198,7 +198,8 @@ theorem alpineVersionG_unguarded_oob : alpineVersionG [] ([] : List Text) = .oob
 theorem tie_sites_parseRepositoryIndex :
     Generated.sites_parseRepositoryIndex.filter (fun s => s.1 = "slice" || s.1 = "index") =
       [("index", "matches", "2"), ("index", "matches", "1"), ("slice", "b", "readBytes:")] ∧
-    Generated.loops_parseRepositoryIndex = [("range keys", 1), ("forever", 5), ("range sigs", 2)] := by decide
+    Generated.loops_parseRepositoryIndex = [("range keys", 1), ("forever", 5), ("range sigs", 2),
+      ("shouldCheckSignatureForIndex: range opts.noSignatureIndexes", 1)] := by decide
 
 theorem signatureGuard :
     findLen Generated.lenGuards_parseRepositoryIndex "matches" = some ⟨.ne, 3, "return"⟩ := by decide
